@@ -4,6 +4,7 @@ Glue for the rulebook pipeline (diff / patch / ordering): serves C01 C02 C03 C08
 import AnnetModel.Glue.Common
 import AnnetModel.Model.Api
 import AnnetModel.Spec.TestLogics
+import AnnetModel.Spec.DiffText
 
 namespace Annet.Glue.Rb
 open Lean Annet.Glue Annet.Rules Annet.Diff Annet.Patch
@@ -83,13 +84,65 @@ def jobOfJson (j : Json) : Except String Job := do
   let new ← cfgOfJson (← arg j "new")
   pure { v := v, rules := compileP v rp, ordering := compileO ro, old := old, new := new }
 
-/-- `{"op":"rb.diff", vendor, patching, ordering, old, new}` → `make_diff(old, new, rb, [])` and its stripped form -/
+def fmtOfJson (j : Json) : Except String (String × DiffText.Fmt) := do
+  let name ← (← arg j "name").getStr?
+  let ind ← (← arg j "indent").getStr?
+  let bb ← (← arg j "block_begin").getStr?
+  let be ← (← arg j "block_end").getStr?
+  let se ← (← arg j "statement_end").getStr?
+  pure (name, ⟨ind.toList, bb.toList, be.toList, se.toList⟩)
+
+partial def sitemBeq : DiffText.SItem → DiffText.SItem → Bool
+  | .mk s r c, .mk s' r' c' => s == s' && r == r' && c.length == c'.length && (c.zip c').all fun (a, b) => sitemBeq a b
+
+/-- equality per level as a multiset (the harness's `multiset`): remove a matching entry for every entry -/
+partial def sitemPermEq (l1 l2 : List DiffText.SItem) : Bool :=
+  let eqv (a b : DiffText.SItem) : Bool :=
+    a.sign == b.sign && a.row == b.row && sitemPermEq a.children b.children
+  let rec rm (a : DiffText.SItem) : List DiffText.SItem → Option (List DiffText.SItem)
+    | [] => none
+    | b :: bs => if eqv a b then some bs else (rm a bs).map (b :: ·)
+  match l1 with
+  | [] => l2.isEmpty
+  | a :: as =>
+    match rm a l2 with
+    | none => false
+    | some l2' => sitemPermEq as l2'
+
+/-- the two text views of the stripped diff (Model/DiffText.lean) and whether the readers of Spec/DiffText.lean
+get the entries back -/
+def textViews (j : Json) (sd : List DItem) : Except String (List (String × Json)) := do
+  match j.getObjVal? "fmts" with
+  | .error _ => pure []
+  | .ok fj =>
+    let fmts ← (← fj.getArr?).toList.mapM fmtOfJson
+    match DiffText.signedList sd with
+    | none => pure [("texts", Json.str "unchanged-entry")]
+    | some s =>
+      let texts := fmts.map fun (name, f) =>
+        let lines := DiffText.diffText f s
+        let back := match DiffText.parseSigned f lines with
+          | some b => b.length == s.length && (b.zip s).all fun (x, y) => sitemBeq x y
+          | none => false
+        Json.arr #[Json.str name, jStrs (lines.map String.ofList), Json.bool back]
+      let k := 2
+      let plines := DiffText.preText (List.replicate k ' ') sd
+      let pback := match DiffText.parsePre k plines with
+        | some b => sitemPermEq b s
+        | none => false
+      pure [("texts", Json.arr texts.toArray), ("pre_text", jStrs (plines.map String.ofList)),
+            ("pre_back", Json.bool pback)]
+
+/-- `{"op":"rb.diff", vendor, patching, ordering, old, new[, fmts]}` → `make_diff(old, new, rb, [])`, its stripped form
+and (with `fmts`) the text views of the stripped form -/
 def diffH : Handler := fun j => do
   let job ← jobOfJson j
   match makeDiff job.rules job.old job.new with
   | .error e => pure (dErr e)
-  | .ok d => pure (Json.mkObj [("diff", Json.arr (d.map ditemToJson).toArray),
-                               ("stripped", Json.arr ((stripUnchanged d).map ditemToJson).toArray)])
+  | .ok d =>
+    let tv ← textViews j (stripUnchanged d)
+    pure (Json.mkObj ([("diff", Json.arr (d.map ditemToJson).toArray),
+                       ("stripped", Json.arr ((stripUnchanged d).map ditemToJson).toArray)] ++ tv))
 
 /-- `{"op":"rb.patch", …, "do_commit":b, "mode":"device"|"file"}` → the front ends of api/__init__.py
 (`Api.deviceMode` = `_diff_and_patch`, `Api.fileMode` = `_read_old_new_diff_patch`) -/
